@@ -237,6 +237,39 @@ def mk_reject(length, alphabet=ALPHABET):
     return body
 
 
+def mk_atom_serial(length, alphabet=ALPHABET):
+    """the atom reader itself (Atom.__init__ / set_properties): the serial columns 7-11 filled with a symbolic field of
+    the given length (right-justified) give Atom.numb == the reference value of the hybrid-36 grammar, or ValueError"""
+    def body(ctx):
+        import propka.atom as A
+        from symx.sstr import as_els
+        s = ctx.string('s', length, alphabet)
+        els = list(as_els(H.pdb_line(1, 'CA', 'ARG', 'A', 10, 1.0, 2.0, 3.0)))
+        field = [32] * (5 - length) + list(as_els(s))
+        for i, e in enumerate(field):
+            els[6 + i] = e
+        if ctx.native:
+            valid, ref = py_valid_and_value(s)
+        else:
+            vf, rv_ = valid_and_value(s.el)
+            valid, ref = SBool(vf), SInt(rv_)
+        try:
+            a = A.Atom(line=mk(els))
+            raised = None
+        except ValueError:
+            raised = 'ValueError'
+        if raised:
+            ctx.claim('valid-serials-are-read', Not(valid) if not isinstance(valid, bool) else (not valid))
+        else:
+            ctx.claim('malformed-serial-rejected-with-ValueError', valid, detail='the atom reader accepted a serial outside the hybrid-36 grammar')
+            if isinstance(valid, bool):
+                if valid:
+                    ctx.claim('numb-is-the-decoded-serial', a.numb == ref, detail='%r -> %r (reference %r)' % (s, a.numb, ref))
+            else:
+                ctx.claim('numb-is-the-decoded-serial', Implies(valid, eq(a.numb, ref)))
+    return body
+
+
 def mk_int_model(maxlen):
   def o_int_model(ctx):
       """translator validation: the int() model agrees with CPython on every
@@ -343,6 +376,11 @@ def obligations(tier):
                                     'propka/run.py:single (whole pipeline)'],
                               bounds='two-MODEL file from %s, MODEL 2 without the side chain of residue %d; 8 numbering schemes (continued, restarting per MODEL, ...) plus a symbolic offset in [0, 90000]' % (name, res),
                               claim_doc='atoms after topping up, bonds, groups, pKa values and determinants identical in every conformation and in the average', max_paths=5000, split_input=('numbering', 8)))
+    for L in ((1, 2, 3) if tier == 'quick' else (1, 2, 3, 4)):
+        obs.append(Obligation('O4-atom-reader-serial-len%d' % L, mk_atom_serial(L), code=['propka/atom.py:Atom.__init__', 'propka/atom.py:Atom.set_properties', 'propka/hybrid36.py:decode'],
+                              bounds='one ATOM record whose serial field holds every string of length %d over %r (right-justified in columns 7-11)' % (L, ALPHABET),
+                              claim_doc='Atom.numb == reference value of blanks* -? (digits | upper-hy36 | lower-hy36) blanks*; anything else => ValueError',
+                              max_paths=200000, wall_s=170 if tier == 'quick' else 1500))
     maxlen = 3 if tier == 'quick' else 5
     for L in range(0, maxlen + 1):
         obs.append(Obligation('O2-reject-len%d' % L, mk_reject(L), code=code,
